@@ -29,6 +29,24 @@ type c07Def struct {
 	owns     func(goName string) bool // which Go declarations belong to it
 	declOnly bool                     // may live in a .foi file
 	noOutput bool                     // emits no Go at all (package_info)
+	context  bool                     // only a context for others: its own text legitimately depends on what precedes it (not compared)
+}
+
+// c07AmbiguityPool: two records with the same field-name set (an unqualified literal is resolved to the
+// alphabetically first one that is declared at that point), a third whose fields contain theirs, and
+// literals written before / after the second record exists.  gorigin's own resolution legitimately depends
+// on whether Cz precedes it (context only); gmk and gmq come after both records and must not care what
+// was resolved, cached or registered before them.
+func c07AmbiguityPool() []c07Def {
+	return []c07Def{
+		/*0*/ {name: "Pz", src: "type Pz = {Xa: int; Ya: int}\n", owns: exact("Pz"), declOnly: true},
+		/*1*/ {name: "Cz", src: "type Cz = {Xa: int; Ya: int}\n", owns: exact("Cz"), declOnly: true},
+		/*2*/ {name: "gorigin", src: "let gorigin () =\n  {Xa=0; Ya=0}\n", deps: []int{0}, owns: exact("gorigin"), context: true},
+		/*3*/ {name: "gmk", src: "let gmk (a:int) =\n  {Xa=a; Ya=a}\n", deps: []int{0, 1}, owns: exact("gmk")},
+		/*4*/ {name: "gmq", src: "let gmq (a:int) =\n  let p = {Pz.Xa=a; Ya=a}\n  let c = {Ya=a; Xa=a}\n  (p, c)\n", deps: []int{0, 1}, owns: exact("gmq")},
+		/*5*/ {name: "Az", src: "type Az = {Xa: int; Ya: int; Za: int}\n", owns: exact("Az"), declOnly: true},
+		/*6*/ {name: "gaz", src: "let gaz () =\n  {Xa=1; Ya=2; Za=3}\n", deps: []int{5}, owns: exact("gaz")},
+	}
 }
 
 func prefixOwner(names ...string) func(string) bool {
@@ -283,17 +301,32 @@ func checkC07(c *core.Ctx) {
 	if err != nil {
 		panic(err)
 	}
-	pool := c07Pool(c.Thorough())
 	c.Set("rule", "histories are enumerated by the choice-tree explorer: sequences of distinct definitions of a pool (records, union, `type ... and ...` group, package_info, top-level variable, functions with match temporaries, _.Field lambdas, many type variables, generic function and its user) in which every definition follows its dependencies, up to the length bound, x every way of cutting the sequence into at most c files given to one fc invocation x a .foi variant for declaration-only first files; histories are not deduplicated; distinct = distinct (sequence, cuts); non-trivial = at least two definitions")
 	c.Assumption("a definition's Go text = the source text of the top-level Go declarations it owns (type, case structs, methods, constructors, func, var), extracted with go/parser, with _vN renumbered by first occurrence; the reference is the same definition in its minimal history (its dependency closure only, in pool order)")
 	maxLen, maxFiles := 4, 2
 	if c.Thorough() {
 		maxLen, maxFiles = 5, 3
 	}
+	pool := c07Pool(c.Thorough())
 	c.Set("pool_size", len(pool))
 	c.Set("max_length", maxLen)
 	c.Set("max_files", maxFiles)
+	runs := [][2]int{{maxLen, maxFiles}}
+	if c.Thorough() {
+		runs = [][2]int{{4, 3}, {5, 2}}
+	}
+	ref := c07ExplorePool(c, sc, fc, pool, runs)
+	if ref == nil {
+		return
+	}
+	c07LongHistories(c, sc, fc, pool, ref)
+	amb := c07AmbiguityPool()
+	c.Set("ambiguity_pool_size", len(amb))
+	c07ExplorePool(c, sc, fc, amb, [][2]int{{len(amb), maxFiles}})
+}
 
+// c07ExplorePool computes the reference texts of a pool and explores its histories; nil if a minimal history fails.
+func c07ExplorePool(c *core.Ctx, sc *impl.Scratch, fc string, pool []c07Def, runs [][2]int) map[int]string {
 	// reference texts from minimal histories
 	ref := map[int]string{}
 	refPat := map[int]string{}
@@ -343,7 +376,7 @@ func checkC07(c *core.Ctx) {
 		os.RemoveAll(dir)
 	}
 	if c.ViolationCount() > 0 {
-		return
+		return nil
 	}
 
 	jobs := make(chan *c07Case, 512)
@@ -379,17 +412,14 @@ func checkC07(c *core.Ctx) {
 			c.NotExhaustive(fmt.Sprintf("enumeration with length<=%d files<=%d stopped early", maxLen, maxFiles))
 		}
 	}
-	if c.Thorough() {
-		run(4, 3)
-		run(5, 2)
-	} else {
-		run(maxLen, maxFiles)
+	for _, r := range runs {
+		run(r[0], r[1])
 	}
 	close(jobs)
 	wg.Wait()
 	c.Count(0, total.States, total.Transitions, 0)
-	c.Set("explorer", map[string]any{"executions": total.Executions, "max_depth": total.MaxDepth})
-	c07LongHistories(c, sc, fc, pool, ref)
+	c.Set(fmt.Sprintf("explorer_pool_of_%d", len(pool)), map[string]any{"executions": total.Executions, "max_depth": total.MaxDepth})
+	return ref
 }
 
 // c07LongHistories: the whole pool (in pool order) after N renamed copies of one definition kind - in one
@@ -550,7 +580,7 @@ func c07RunOne(c *core.Ctx, fc, dir string, pool []c07Def, ref, refPat map[int]s
 			return
 		}
 		for _, i := range f.defs {
-			if pool[i].noOutput {
+			if pool[i].noOutput || pool[i].context {
 				continue
 			}
 			c.Count(0, 0, 0, 1)
